@@ -25,7 +25,9 @@ fn sbyte(i: u64) -> u8 {
     (i % 249) as u8 + 3
 }
 
-struct V {
+/// `RX` is the size of the receive buffers the driver posts (a const generic of the driver): 64
+/// in most parts, 2048 in the large-buffer part where packets of several hundred bytes flow.
+struct V<const RX: usize> {
     depth: usize,
     cap: u32,
     preset: (u32, u32),
@@ -41,12 +43,12 @@ struct Pending {
     payload: Vec<u8>,
 }
 
-impl TransportVisitor for V {
+impl<const RX: usize> TransportVisitor for V<RX> {
     type Out = ();
     fn visit<T: Transport + 'static>(self, t: T, w: &DWorld) {
         let dev = make_device(w);
         cosim::install(&dev.co);
-        let sock = match VirtIOSocket::<LabHal, T, VSOCK_RX>::new(t) {
+        let sock = match VirtIOSocket::<LabHal, T, RX>::new(t) {
             Ok(s) => s,
             Err(e) => {
                 viol("construction", format!("{:?}", e));
@@ -98,9 +100,23 @@ impl TransportVisitor for V {
         let mut out_pos: u64 = 0; // absolute position of the driver's outgoing stream
         let mut peer_rx_pos: u64 = 0;
         let mut tx_seen = dev.tx.borrow().len();
-        let send_lens = [0u32, 1, 2, cap];
-        let recv_lens = if self.ring { [1usize, 2, cap as usize] } else { [1usize, 3, cap as usize] };
-        let peer_lens = if self.ring { [1u32, 2, cap] } else { [1u32, 3, cap] };
+        let large = RX > 512;
+        let send_lens = if large { [0u32, 1, 469, cap] } else { [0u32, 1, 2, cap] };
+        let recv_lens = if large {
+            [1usize, 500, cap as usize]
+        } else if self.ring {
+            [1usize, 2, cap as usize]
+        } else {
+            [1usize, 3, cap as usize]
+        };
+        let peer_lens = if large {
+            // Just below and above the default buffer's payload limit (468), and a full buffer.
+            [468u32, 469, (RX - HDR_LEN) as u32]
+        } else if self.ring {
+            [1u32, 2, cap]
+        } else {
+            [1u32, 3, cap]
+        };
         let mut forced: Option<usize> = None;
         // The peer has shut the connection down while data was still buffered.
         let mut shutdown_pending = false;
@@ -242,7 +258,7 @@ impl TransportVisitor for V {
                     // Peer data, only within the credit the driver advertised.
                     let len = peer_lens[op - 9];
                     let credit = seen_d_buf_alloc.saturating_sub(p_tx_total.wrapping_sub(seen_d_fwd));
-                    if len > credit || len as usize > VSOCK_RX - HDR_LEN || dev.posted() == 0 {
+                    if len > credit || len as usize > RX - HDR_LEN || dev.posted() == 0 {
                         tag("peer:rw-not-allowed");
                         continue;
                     }
@@ -386,6 +402,20 @@ pub fn run(tkind: TKind, depth: usize, cap: u32) {
     run_mode(tkind, depth, cap, false)
 }
 
+/// Receive buffers of 2048 bytes, a connection buffer of 2048 bytes, peer packets of 468, 469 and
+/// 2004 bytes: sizes for which a receive-buffer size other than the default matters.
+pub fn run_large(tkind: TKind, depth: usize) {
+    hal::reset();
+    let feats = [F_VERSION_1, F_VERSION_1 | F_INDIRECT | F_EVENT_IDX];
+    let offered = feats[choose(feats.len(), "offered features")];
+    let preset = [PRESETS[0], PRESETS[1]][choose(2, "counter preset")];
+    let mut cfg = vec![0u8; 8];
+    cfg.copy_from_slice(&GUEST_CID.to_le_bytes());
+    let w = DWorld::new(Kind::Socket, tkind, offered, cfg);
+    w.with_transport(V::<2048> { depth, cap: 2048, preset, ring: false });
+    mmio::set_handler(None);
+}
+
 pub fn run_mode(tkind: TKind, depth: usize, cap: u32, ring: bool) {
     hal::reset();
     let feats = [F_VERSION_1, F_VERSION_1 | F_INDIRECT | F_EVENT_IDX];
@@ -394,6 +424,6 @@ pub fn run_mode(tkind: TKind, depth: usize, cap: u32, ring: bool) {
     let mut cfg = vec![0u8; 8];
     cfg.copy_from_slice(&GUEST_CID.to_le_bytes());
     let w = DWorld::new(Kind::Socket, tkind, offered, cfg);
-    w.with_transport(V { depth, cap, preset, ring });
+    w.with_transport(V::<VSOCK_RX> { depth, cap, preset, ring });
     mmio::set_handler(None);
 }
